@@ -1,5 +1,5 @@
 """C02 -- canonicalisation never changes what a URL means."""
-from .common import run_progs
+from .common import run_progs, run_harvest
 from .quoterlevel import run_quoter_level
 
 FINISH = dict(rule="R1 MC_Quoters Inv_C02 (skeleton equality on all enumerated texts); R2 replay on the real quoters; R3 random "
@@ -10,4 +10,5 @@ FIELDS = ["str", "val", "raw_user", "raw_password", "raw_path", "raw_query_strin
 def run(out, sc, tier, seed):
     run_quoter_level(out, sc, tier, seed, "C02")
     n = 12000 if tier == "quick" else 300000
-    run_progs(out, sc, "C02", {"gen": "progs", "n": n, "seed": seed, "surrogate_p": 0.03, "fields": FIELDS}, "progs")
+    run_progs(out, sc, "C02", {"gen": "progs", "n": n, "seed": seed, "surrogate_p": 0.03, "fields": FIELDS, "typed": True}, "progs")
+    run_harvest(out, sc, "C02")
